@@ -142,8 +142,20 @@ def gen_problem(rng, w, d07=False):
     """a valid problem description; d07: fluents may have repeated arguments (finding class D07)"""
     objs = G.gen_objects(rng, w, n=rng.randint(1, 4))
     style = rng.choice(["typed", "typed", "grouped", "untyped-tail", "private", "mixed"])
+    shadow = None
+    if w.consts and rng.random() < 0.15:
+        # an object named like a domain constant (of another type): the constant's type decides ({**objects, **constants})
+        cn, ct = rng.choice(w.consts)
+        others = [t for t in w.all_types() if t != ct]
+        if others:
+            shadow = (cn, rng.choice(others))
     if style in ("untyped-tail", "mixed"):
         objs = [o for o in objs if o[1] != "object"] + [o for o in objs if o[1] == "object"]
+    declared = list(objs)
+    if shadow:
+        declared.insert(rng.randint(0, len(declared)), shadow)
+        if style in ("untyped-tail", "mixed"):
+            declared = [o for o in declared if o[1] != "object"] + [o for o in declared if o[1] == "object"]
     init = []
     atoms = G.ground_atoms(w, objs, w.preds)
     rng.shuffle(atoms)
@@ -179,8 +191,8 @@ def gen_problem(rng, w, d07=False):
         cmp_ = rng.choice(CMPS)
         goal.append(["num", [cmp_, fl, rhs] if rng.random() < 0.75 or not isinstance(rhs, list) else [cmp_, rhs, fl]])
     rng.shuffle(goal)
-    return {"name": "prob%d" % rng.randint(0, 99), "domain": "dom", "objects": objs, "style": style,
-            "init": init, "goal": goal}
+    return {"name": "prob%d" % rng.randint(0, 99), "domain": "dom", "objects": declared, "arg_objects": objs, "style": style,
+            "init": init, "goal": goal, "shadow": bool(shadow)}
 
 
 def objects_tokens(rng_style, objs):
@@ -311,7 +323,7 @@ def tree_get(t, path):
 def corruptions(rng, w, desc):
     """every single-point corruption of a valid problem description: (kind, corrupted description, finding class)"""
     out = []
-    objs = [tuple(o) for o in desc["objects"]]
+    objs = [tuple(o) for o in desc.get("arg_objects", desc["objects"])]
     sigs = {"fact": dict(w.preds), "lit": dict(w.preds), "fluent": dict(w.funcs)}
 
     def add(kind, d, klass=None):
@@ -407,7 +419,7 @@ def build_generated(rng, tier):
                 desc["omit_objects"] = True
             text = G.render(problem_tree(desc), rng, noise=rng.random() < 0.3)
             rep = has_repeat_fluent(desc)
-            cases.append({"text": text, "expect": expected_dump(desc), "kind": "valid-" + desc["style"],
+            cases.append({"text": text, "expect": expected_dump(desc), "kind": "valid-" + desc["style"] + ("-shadowed-constant" if desc.get("shadow") else ""),
                           "klass": "D07" if rep else None, "nontrivial": len(desc["init"]) + len(desc["goal"]) >= 2,
                           "desc": desc})
             if rep:
@@ -477,6 +489,15 @@ def hand_world():
                       ["op", "<=", ["op", "-", ["fl", "h", []], ["num", (0.5).hex()]],
                        ["op", "*", ["num", (2.0).hex()], ["fl", "f0", ["c0"]]]]]},
         "fluent-assigned-twice-last-wins")
+    # an object named like the constant c0 (: t1): the constant's type decides
+    add("(define (problem pr) (:domain dom) (:objects c0 - t2 o0 - t1) (:init (= (f0 c0) 1) (p0 c0)) (:goal (and (p0 c0) (>= (f0 c0) 1))))",
+        {"name": "pr", "objects": [["c0", "t2"], ["o0", "t1"]], "facts": [["p0", ["c0"]]], "fluents": [["f0", ["c0"], (1.0).hex()]],
+         "goal": [["p0", ["c0"]]], "goal_num": [["op", ">=", ["fl", "f0", ["c0"]], ["num", (1.0).hex()]]]},
+        "object-named-like-a-constant-accepted")
+    add("(define (problem pr) (:domain dom) (:objects c0 - t2 o0 - t1) (:init (q c0)) (:goal (and)))", "raised",
+        "object-named-like-a-constant-fact-rejected")
+    add("(define (problem pr) (:domain dom) (:objects c0 - t2 o0 - t1) (:init (= (k3 o0 o0 c0) 1)) (:goal (and)))", "raised",
+        "object-named-like-a-constant-fluent-rejected", "D07")
     # outside the grammar of the spec (judged by the a-priori expectation only)
     add("(define (problem pr) (:domain dom) (:init (z)) (:goal (and)))",
         {"name": "pr", "objects": [], "facts": [["z", []]], "fluents": [], "goal": [], "goal_num": []}, "no-objects-section")
